@@ -67,8 +67,10 @@ cpdef bint check_working_hours_fast(
 
                 # Check for cross-midnight shift
                 if end_minutes <= start_minutes:
-                    # Working time: start_minutes <= slot < 1440 OR 0 <= slot < end_minutes
-                    if slot_minutes >= start_minutes or slot_minutes < end_minutes:
+                    # The shift belongs to the day it starts on: today it covers
+                    # start_minutes <= slot < 1440; the part after midnight falls on
+                    # the next day and is handled by the previous-day check below
+                    if slot_minutes >= start_minutes:
                         return True
                 else:
                     # Normal interval
